@@ -123,6 +123,21 @@ class Poly:
                 out.add(a)
         return out
 
+    def var_names(self):
+        """names of all free variables mentioned anywhere in the value (walks nested keys)"""
+        out = set()
+
+        def walk(k):
+            if isinstance(k, tuple):
+                if len(k) == 2 and k[0] == "var" and isinstance(k[1], str):
+                    out.add(k[1])
+                    return
+                for x in k:
+                    walk(x)
+        for m in self.terms:
+            walk(m)
+        return out
+
     def show(self):
         if not self.terms:
             return "0"
@@ -353,6 +368,15 @@ class VN:
                 return base
             ik = self.index_key(e.slice)
             c, prim = base.split_const()
+            # X[i][s] == X[i, s] when i is an integer position (a variable of a `for i in range(..)` loop): merge the two subscripts
+            if len(prim.terms) == 1:
+                (m_, c_), = prim.terms.items()
+                if c_ == 1 and len(m_) == 1 and m_[0][1] == 1 and isinstance(m_[0][0], tuple) and m_[0][0][0] == "index":
+                    inner = m_[0][0]
+                    k1 = inner[2]
+                    if self._is_range_var_key(k1):
+                        rest = ik[1:] if (isinstance(ik, tuple) and ik and ik[0] == "ix") else (ik,)
+                        return Poly.atom(("index", inner[1], ("ix", k1) + tuple(rest))).scale(c)
             return Poly.atom(("index", prim.key(), ik)).scale(c)
         if isinstance(e, ast.Call):
             return self.call(e)
@@ -363,6 +387,26 @@ class VN:
         if isinstance(e, (ast.Tuple, ast.List)):
             return Poly.atom(("tuple",) + tuple(self.expr(x).key() for x in e.elts))
         raise VNUnknown("expression %s" % dump(e)[:60])
+
+    def _is_range_var_key(self, k):
+        """key of a bare variable that is the target of a `for v in range(...)` loop of the function"""
+        try:
+            (m_, c_), = k
+            if not (c_ == (1, 1) and len(m_) == 1 and m_[0][1] == 1 and isinstance(m_[0][0], tuple) and m_[0][0][0] == "var"):
+                return False
+            name = m_[0][0][1]
+        except Exception:
+            return False
+        if self.func is None:
+            return False
+        rv = getattr(self, "_range_vars", None)
+        if rv is None:
+            rv = set()
+            for n in ast.walk(self.func.node):
+                if isinstance(n, ast.For) and isinstance(n.target, ast.Name) and isinstance(n.iter, ast.Call) and dump(n.iter.func) == "range":
+                    rv.add(n.target.id)
+            self._range_vars = rv
+        return name in rv
 
     def dotted(self, e):
         if self.prog is not None and self.func is not None:
@@ -616,6 +660,18 @@ def _symbols(key, out):
             _symbols(x, out)
 
 
+STRUCTURAL = ("np.where", "setitem", "ifexp", "np.concatenate", "np.stack", "np.select", "np.piecewise", "np.choose", "np.logical_and", "np.logical_or", "np.logical_not", "and", "or", "not")
+
+
+def _structure(key, out):
+    """multiset of the case-structure operators (where / masked store / conditional / concatenation / boolean connectives) of a normal form"""
+    if isinstance(key, tuple):
+        if key and isinstance(key[0], str) and key[0] in STRUCTURAL:
+            out[key[0]] = out.get(key[0], 0) + 1
+        for x in key:
+            _structure(x, out)
+
+
 def comparable(got, ref):
     """
     True  -> both normal forms use the same operator symbols: a difference is a difference of coefficients / signs /
@@ -625,4 +681,10 @@ def comparable(got, ref):
     a, b = set(), set()
     _symbols(got.key(), a)
     _symbols(ref.key(), b)
-    return a <= b
+    if not a <= b:
+        return False
+    # the same vocabulary arranged as a different case structure (nested where vs where + masked store, ...) is another formulation, not a classified difference
+    sa_, sb_ = {}, {}
+    _structure(got.key(), sa_)
+    _structure(ref.key(), sb_)
+    return sa_ == sb_
